@@ -181,6 +181,22 @@ SMObjInGap(o) ==
        \/ \E f \in 1..6 : InEscapeGap(o.charts[j].fields[f])
        \/ HashAfterNLFrom(o.charts[j].fields[6], 1, TRUE)   \* the serializer puts a line break in front of the note data
        \/ \E e \in DOMAIN o.charts[j].extra : InEscapeGap(o.charts[j].extra[e])
+(* A gap the closed form does not mention (known finding, dependency): the serializer ends the  *)
+(* note data with a line break, so an EXTRA chart component that begins with '#' (directly or      *)
+(* through ':', ';', '\' only) - or follows extra components that leave the tokenizer "after a     *)
+(* line break" - starts a new parameter when read back.                                              *)
+RECURSIVE ArmAfter(_, _, _)
+ArmAfter(v, i, armed) ==      \* is the tokenizer "after a line break" once v has been read?
+  IF i > Len(v) THEN armed
+  ELSE IF IsNL(v[i]) THEN ArmAfter(v, i + 1, TRUE)
+  ELSE IF v[i] \in {COLON, SEMI, BSL} THEN ArmAfter(v, i + 1, armed)
+  ELSE ArmAfter(v, i + 1, FALSE)
+RECURSIVE ExtraGapFrom(_, _, _)
+ExtraGapFrom(ex, e, armed) ==
+  IF e > Len(ex) THEN FALSE
+  ELSE HashAfterNLFrom(ex[e], 1, armed) \/ ExtraGapFrom(ex, e + 1, ArmAfter(ex[e], 1, armed))
+SMExtraGap(o) == \E j \in DOMAIN o.charts : ExtraGapFrom(o.charts[j].extra, 1, TRUE)
+
 SSCObjInGap(o) ==
   \/ \E i \in DOMAIN o.items : KeyInGap(o.items[i].k) \/ ValueInGap(o.items[i].v)
   \/ \E j \in DOMAIN o.charts : \E i \in DOMAIN o.charts[j] :
